@@ -144,7 +144,7 @@ def answerIso (fs : List (String × String)) : String :=
         let JS := DMat.ofFn (Mat.mul J.get S.get)
         let want := DMat.ofFn (n := N) (m := N) fun i j =>
           (-(1 / 2 : Rat)) * Mat.mul JS.get J.get i j
-        let is := DMat.ofFn (IsomapPre.denseSym preImpl.get)
+        let is := DMat.ofFn (IsomapPre.denseSolverInput preImpl.get)
         let b := match firstDiff is.get want.get with
           | none => "ok"
           | some (i, j, m, x) => s!"differ@{i},{j}:{showDy m}:{showDy x}"
